@@ -3,7 +3,7 @@ use crate::common::*;
 use crate::gen::*;
 use fast_qr::verif;
 use rand::Rng;
-use serde_json::json;
+use serde_json::{json, Value};
 
 fn caught<T: Send + 'static>(f: impl FnOnce() -> T + Send + 'static) -> Result<T, String> { guarded(30, f) }
 
@@ -500,5 +500,48 @@ pub fn birthday(sink: &mut Sink, seed: u64, thorough: bool) {
     for (i, (v, e, p)) in kept.into_iter().enumerate() {
         let s = BuildSpec { input: p, ecl: Some(e), mode: Some(2), version: Some(v), mask: Some(i % 8), grp: 0, tag: format!("birthday:{v}:{e}"), lite: false };
         sink.build(&s);
+    }
+}
+
+/// C14 where the mask selection could remember something: inputs whose two best candidates TIE exactly (found with the recorder among
+/// serial-numbered payloads of one length, so that all of them get the same version) are each built right after eight different
+/// predecessors of the same version - one whose selection ended on each mask (as far as the pool offers them) - on the one
+/// long-lived executor thread.  The result of a request may not depend on what was built before it: all eight results must be equal.
+/// Events carry the reported fields and a digest of the matrix.
+pub fn tiewalk(sink: &mut Sink, seed: u64, thorough: bool) {
+    let versions: &[(usize, usize)] = if thorough { &[(2, 18), (5, 55), (10, 140), (12, 200), (14, 250), (20, 480)] } else { &[(2, 18), (10, 140), (12, 200)] };
+    let grp = 4_000_001u64;
+    let mut seq = 0u64;
+    let mut bid = 100u64;
+    let mut emit = |sink: &mut Sink, seq: &mut u64, mut ev: Value| { *seq += 1; ev["seq"] = json!(*seq); ev["grp"] = json!(grp); ev["tid"] = json!(1); ev["id"] = json!(sink.id()); sink.emit(&ev); };
+    for &(v, len) in versions {
+        let pool = if thorough { 12000 } else if v >= 12 { 5000 } else { 2500 };
+        let mut ties: Vec<Vec<u8>> = Vec::new();
+        let mut by_winner: Vec<Option<Vec<u8>>> = vec![None; 8];
+        for i in 0..pool {
+            let serial = format!("{:08}", (seed as usize * 7919 + i * 31 + v * 1000) % 100_000_000);
+            let mut p = format!("{serial}@tickets.example.org/v{v}/order?seat=").into_bytes();
+            while p.len() < len { p.push(b'a' + ((p.len() * 7 + v) % 26) as u8); }
+            p.truncate(len);
+            let q = p.clone();
+            let res = caught(move || { verif::start_recording(); let out = fast_qr::QRBuilder::new(q).build(); let c = verif::take_candidates(); (out.ok().map(|x| (x.size, x.mask.map(|m| m as usize))), c.iter().map(|k| k.score).collect::<Vec<u32>>()) });
+            let Ok((Some((size, Some(w))), scores)) = res else { continue };
+            if size != 17 + 4 * v || scores.len() != 8 { continue; }
+            let mut s2 = scores.clone(); s2.sort();
+            if s2[0] == s2[1] && ties.len() < (if thorough { 10 } else { 4 }) { ties.push(p.clone()); }
+            if by_winner[w].is_none() { by_winner[w] = Some(p); }
+        }
+        let preds: Vec<Vec<u8>> = by_winner.into_iter().flatten().collect();
+        if ties.is_empty() || preds.len() < 2 { let id = sink.id(); sink.emit(&json!({"ev": "FileSkip", "id": id, "tag": format!("tiewalk:none:{v}"), "fault": "no exact tie found"})); continue; }
+        let mut known: std::collections::HashMap<Vec<u8>, u64> = Default::default();
+        for t in &ties { for pr in &preds {
+            for inp in [pr, t] {
+                let b = match known.get(inp) { Some(b) => *b, None => { bid += 1; known.insert(inp.clone(), bid); emit(sink, &mut seq, json!({"ev": "HNew", "bid": bid, "tag": "hnew", "input": inp})); bid } };
+                let q = inp.clone();
+                let mut out = caught(move || match fast_qr::QRBuilder::new(q).build() { Ok(qr) => qr_json(&qr), Err(e) => json!({"kind": "Err", "why": err_name(&e)}) }).unwrap_or_else(|k| json!({"kind": k.split(':').next().unwrap_or("Panic"), "why": k}));
+                if let Some(m) = out.as_object_mut() { m.remove("vals"); m.remove("types"); }
+                emit(sink, &mut seq, json!({"ev": "HBuild", "bid": b, "tag": format!("tiewalk:{v}"), "lite": 1, "out": out}));
+            }
+        } }
     }
 }
